@@ -231,6 +231,13 @@ def layout_129029 : List PubField := [
   ⟨"PDOP", 288, 16, true, 1, 2, .param "PDOP"⟩,
   ⟨"Geoidal Separation", 304, 32, true, 1, 2, .param "GeoidalSeparation"⟩]
 
+/-- PGN 129029, the repeated reference-station record as the library writes it for exactly one station
+(`pair_129029_t`: the setter path with `nReferenceStations` in 1..254; the count itself is written as 1) -/
+def layout_129029_t : List PubField := [
+  ⟨"Reference Station Type", 344, 4, false, 1, 0, .param "ReferenceStationType"⟩,
+  ⟨"Reference Station ID", 348, 12, false, 1, 0, .param "ReferenceSationID"⟩,
+  ⟨"Age of DGNSS Corrections", 360, 16, false, 1, 2, .param "AgeOfCorrection"⟩]
+
 /-- PGN 129033 Time & Date -/
 def layout_129033 : List PubField := [
   ⟨"Date", 0, 16, false, 1, 0, .param "DaysSince1970"⟩,
